@@ -16,9 +16,11 @@ use std::marker::PhantomData;
 
 pub const MARGIN: usize = 256;
 
+/// 0 = operands are exact-size heap blocks (sanitizer redzones directly adjacent); otherwise guard margin in bytes
+pub static MARGIN_NOW: std::sync::atomic::AtomicUsize = std::sync::atomic::AtomicUsize::new(MARGIN);
+
 pub fn margin() -> usize {
-    static M: std::sync::OnceLock<usize> = std::sync::OnceLock::new();
-    *M.get_or_init(|| if std::env::var("PZV_NOMARGIN").is_ok() { 0 } else { MARGIN })
+    MARGIN_NOW.load(std::sync::atomic::Ordering::Relaxed)
 }
 
 #[inline]
